@@ -132,6 +132,54 @@ def c10(run):
                         "byte-level decoding is covered by a finite catalogue + seeded random strings, not exhaustively"]
 
 
+def late_registration(run):
+    """SubscriberReg.tla (validators parked on the semaphore, SetVerifier's two steps) + its replay: 3 x 24 valid messages
+    wait for the verifier, SetVerifier registers one that returns nil; every message must be accepted / delivered / relayed
+    (SubscriberTrace.tla), and the hand-over itself is checked by the Go race detector: its happens-before analysis decides
+    PublishedBeforeRelease for the real code independently of the order the goroutines happened to run in."""
+    import re
+    pid = run.pid
+    res = vlib.tlc(pid, "reg", "SubscriberReg", "SubscriberReg.cfg", workers=2, timeout=600)
+    vlib.require_tlc_ok(res, "SubscriberReg.tla")
+    run.add_tlc("SubscriberReg.tla: 3 waiting validators x SetVerifier (ConsultsRegistered, PublishedBeforeRelease, AllJudged)", res)
+    bad = vlib.tlc(pid, "regbad", "SubscriberReg", "SubscriberRegBad.cfg", workers=2, timeout=600)
+    if bad.violated != "ConsultsRegistered":
+        raise vlib.Inconclusive("SubscriberReg.tla self-test: the close-before-write order was not refuted (%s)" % (bad.error or bad.violated))
+    wd = vlib.workdir(pid)
+    binp = os.path.join(wd, "p2ph_race.test")
+    vlib.go_build_test("p2ph", binp, race=True)
+    cp, op, tp = [os.path.join(wd, "late_%s.ndjson" % n) for n in ("cases", "out", "trace")]
+    vlib.write_ndjson(cp, [{"id": 0}])
+    for p_ in (op, tp):
+        if os.path.exists(p_):
+            os.remove(p_)
+    r = vlib.run_bin(binp, ["-test.run", "^TestSubscriberLate$", "-test.timeout", "900s", "-test.count", "1"],
+                     env_extra={"VH_CASES": cp, "VH_OUT": op, "VH_TRACE": tp, "GOLOG_LOG_LEVEL": "error", "VERIF_SEED": vlib.seed(),
+                                "GORACE": "halt_on_error=0 exitcode=0"}, timeout=1000)
+    txt = r.stdout + r.stderr
+    # race reports that involve the Subscriber's own code (reports inside third-party packages are not ours to judge)
+    blocks = [b for b in txt.split("WARNING: DATA RACE")[1:] if "go-header/p2p.(*Subscriber" in b.split("==================")[0]]
+    # (the testing package fails a test during which a race was reported: a non-zero exit with such a report is a result)
+    if (r.returncode != 0 and not blocks) or not os.path.exists(tp):
+        raise vlib.Inconclusive("late-registration driver failed:\n" + txt[-3000:])
+    run.cov["late_registration_messages"] = sum(1 for _ in open(tp))
+    run.cov["late_registration_race_reports"] = len(blocks)
+    if blocks:
+        run.violation({"family": "C11", "pred": "C11_verifier_published_before_waiting_validators_are_released", "oracle": "race-detector"},
+                      "SetVerifier / verifyMessage hand-over of the verifier is not ordered (race detector, real run of 72 waiting "
+                      "validators):\n" + blocks[0][:1800])
+    tv = vlib.tlc(pid, "tv_late", "SubscriberTrace", "SubscriberTrace.cfg", workers=1, env_extra={"TRACE": tp}, export_key="FAIL", heap="2g")
+    if tv.error or not tv.ok:
+        raise vlib.Inconclusive("trace evaluation failed: %s" % ((tv.error or tv.stdout)[-2000:]))
+    run.cov["evaluations"] = run.cov.get("evaluations", 0) + max(0, tv.distinct - 1)
+    run.cov["traces_validated_against_impl"] = run.cov.get("traces_validated_against_impl", 0) + max(0, tv.distinct - 1)
+    for f in tv.exported:
+        for p_ in f["preds"]:
+            if p_.startswith("C11_"):
+                run.violation({"family": "C11", "pred": p_, "mode": "late-registration"},
+                              "clause %s fails for a message that waited for SetVerifier (record %s)" % (p_, f["tr"]))
+
+
 @register("C11")
 def c11(run):
     def with_metrics(rows):
@@ -145,6 +193,7 @@ def c11(run):
         return out
     cases, _ = table_flow(run, "Subscriber", "Subscriber.cfg", "C11", "TestSubscriber", "SubscriberTrace", ["C11_"], shards=2,
                           derive=with_metrics)
+    late_registration(run)
     for c in cases[:3]:
         run.sample({"in": c["in"], "predicted": c["predicted"]})
     run.cov["exhaustive"] = True
